@@ -219,7 +219,8 @@ func Mutate(r *Rng, src string) string {
 	f := strings.Fields(src)
 	switch r.N(8) {
 	case 0:
-		return src[:r.N(len(src)+1)]
+		rs := []rune(src) // cut at a rune boundary: C18 quantifies over valid UTF-8 only
+		return string(rs[:r.N(len(rs)+1)])
 	case 1:
 		if len(f) > 2 {
 			i := r.N(len(f))
